@@ -53,15 +53,18 @@ def main():
         res["suite_passes"] = "FAIL" not in out and "panic" not in out
         if not res["suite_passes"]: print(out[-800:])
         # demonstration
-        place = meta.get("demo_place", "seeded_demo_test.go")
-        place = place.replace("/tmp/wt-%s/" % meta.get("property", ""), "")
-        place = re.sub(r"^/tmp/wt-C\d\d/", "", place)
-        demo_dst = os.path.join(REPO, place)
-        if os.path.isdir(demo_dst) or not demo_dst.endswith(".go"):
-            demo_dst = os.path.join(demo_dst, "seeded_demo_test.go")
+        # target package directory from the demo's package clause
+        src = open(os.path.join(d, "demo_test.go")).read()
+        m = re.search(r"^package\s+(\w+)", src, re.M)
+        pkg = m.group(1) if m else "evalfilter_test"
+        base = pkg[:-5] if pkg.endswith("_test") else pkg
+        sub = {"evalfilter": "", "main": "cmd/evalfilter"}.get(base, base)
+        demo_dst = os.path.join(REPO, sub, "zz_seeded_demo_test.go")
         shutil.copy(os.path.join(d, "demo_test.go"), demo_dst)
         demo_pkg = "./" + os.path.relpath(os.path.dirname(demo_dst), REPO)
-        demo_cmd = "go test -vet=off -count=1 %s 2>&1 | tail -15" % demo_pkg
+        names = re.findall(r"^func (Test\w+)\(", src, re.M)
+        race = "-race " if "-race" in meta.get("demo_cmd", "") else ""
+        demo_cmd = "go test -vet=off -count=1 -timeout 180s %s-run '^(%s)$' %s 2>&1 | tail -15" % (race, "|".join(names), demo_pkg)
         rc, out = sh(demo_cmd, timeout=600)
         res["demo_fails_with_change"] = ("FAIL" in out) or ("panic" in out) or ("fatal error" in out)
         res["demo_output_with_change"] = out[-500:]
